@@ -221,6 +221,9 @@ func c02R1R2(p *core.Prog, r *core.Report) {
 				}
 			}
 			if rawStore == nil {
+				if fn.Name() == "updateDesc" {
+					r.Violated("C02.R2", p.FuncName(fn), "coherent resync", p.Pos(fn.Pos()), "the re-synchronisation no longer stores the raw body: after an edit the manifest keeps pushing its old bytes under a new digest")
+				}
 				continue
 			}
 			fname := p.FuncName(fn)
